@@ -784,6 +784,51 @@ def replay_two_files_data(p):
 
 
 
+def replay_dataset_names_sets(p):
+    """Two channels (names, explicit dataset names, channel-set names) with inline data, one frame each: each frame's
+    rows are its own channel's values."""
+    _quiet()
+    from dliswriter import DLISFile
+    a1, d1, s1, a2, d2, s2 = p['args'][:6]
+    N, DS, SN = ['A', 'B'], [None, 'A', 'B', 'A__1'], [None, 'S']
+    df = DLISFile()
+    lf = df.add_logical_file()
+    lf.add_origin('O', file_set_number=1, creation_time='2020/01/01 00:00:00')
+    arrs = [np.arange(3, dtype=np.float64) + 10, np.arange(3, dtype=np.float64) + 500]
+    chans = []
+    try:
+        for k, (a, d, sn) in enumerate(((a1, d1, s1), (a2, d2, s2))):
+            chans.append(lf.add_channel(N[a], data=arrs[k], dataset_name=DS[d], set_name=SN[sn]))
+    except ValueError as e:
+        return _res('', {'refused': str(e)[:80]})
+    for k, c in enumerate(chans):
+        lf.add_frame('F' + str(k), channels=(c,))
+    path = fresh_tmp()
+    bad = ''
+    try:
+        df.write(path, output_chunk_size=65536)
+        r = strict.parse_file(open(path, 'rb').read())
+        lfv = r['logical_files'][0]
+        rows = {}
+        for rec, ob, pos in lfv.iflrs:
+            if rec.type == 0:
+                num, q = strict.dec_uvari(rec.body, pos)
+                rows.setdefault(ob[2], []).append(struct.unpack('>d', rec.body[q:q + 8])[0])
+        want = {'F0': arrs[0].tolist(), 'F1': arrs[1].tolist()}
+        if rows != want:
+            bad = f'frames carry {rows}, expected {want} (dataset names {[c.dataset_name for c in chans]})'
+    except strict.StrictError as e:
+        bad = f'strict reader: {e}'
+    except Exception as e:
+        bad = f'write raised {type(e).__name__}: {e}'
+    finally:
+        try:
+            os.remove(path)
+        except OSError:
+            pass
+    return _res(bad, {'dataset_names': [c.dataset_name for c in chans]})
+
+
 def replay_declared_count(p):
     """Declared length of the record sequence against the records it yields (deterministic), on the real package."""
     _quiet()
